@@ -18,6 +18,7 @@ int __real_usleep(useconds_t);
 static void *volatile REG[MAXREG];
 static __thread int DEPTH[MAXREG];
 volatile int vf_usleep_fast;
+volatile int vf_spin_abort;       /* terminate a thread that still spins on a registered mutex (harness gives up on it) */
 volatile long vf_trylock_calls, vf_trylock_busy, vf_unlock_calls, vf_usleep_calls;
 
 static int reg_index(void *m) { for (int i = 0; i < MAXREG; i++) if (REG[i] == m) return i; return -1; }
@@ -37,7 +38,7 @@ int __wrap_pthread_mutex_trylock(pthread_mutex_t *m) {
     if (sp && DEPTH[i] == 0) sp(VF_PT_TRYLOCK, m);          /* outermost acquire: scheduling point (may park) */
     int r = __real_pthread_mutex_trylock(m);
     __atomic_add_fetch(&vf_trylock_calls, 1, __ATOMIC_RELAXED);
-    if (r == 0) DEPTH[i]++; else __atomic_add_fetch(&vf_trylock_busy, 1, __ATOMIC_RELAXED);
+    if (r == 0) DEPTH[i]++; else { __atomic_add_fetch(&vf_trylock_busy, 1, __ATOMIC_RELAXED); if (vf_spin_abort) pthread_exit(NULL); }
     if (sp && r == 0 && DEPTH[i] == 1) sp(VF_PT_LOCKED, m);
     return r;
 }
